@@ -7,6 +7,8 @@
      [e |-> "pes", pid, sid, peslen, total, pts, dts, hasdts, wantpts, wantdts, key, intact, prefix, rai, pcrf, pcr, pcr_ok]
         (33-bit time values are decimal strings: TLC integers are 32 bit)
      [e |-> "end", frames, pes]
+     [e |-> "hls", inband, segments, video_units, audio_frames, bad, video_equal, audio_equal, key_flags, prefixes]
+        (driver TestTsHls: packetisers -> hls.SegmentGenerator, which batches ~100 ms of audio into one PES)
    Every record is consumed; a record the statement forbids prints one @BAD line.                     *)
 EXTENDS Integers, Sequences, FiniteSets, TLC, Json, IOUtils
 Trace == ndJsonDeserialize(IOEnv.VERIF_TRACE)
@@ -58,6 +60,14 @@ Next ==
        [] e.e = "pkt" -> Pkt(e)
        [] e.e = "psi" -> Psi(e)
        [] e.e = "pes" -> Pes(e)
+       [] e.e = "hls" -> \* one stream through the HLS segment generator, every completed segment demultiplexed
+            /\ Ok(e.bad = <<>>, e, "C09:hls-segment-is-not-a-valid-transport-stream")
+            /\ Ok(e.video_equal, e, "C09:hls-video-units-differ-from-the-source")
+            /\ Ok(e.audio_equal, e, "C09:hls-adts-frames-differ-from-the-source-AAC-frames")
+            /\ Ok(e.key_flags, e, "C09:hls-key-frame-not-recognisable")
+            /\ Ok(e.prefixes, e, "C09:hls-access-unit-without-delimiter-or-key-frame-without-SPS-PPS")
+            /\ Ok(e.segments >= 3 /\ e.video_units > 50 /\ e.audio_frames > 50, e, "C09:vacuous-hls-run")
+            /\ UNCHANGED <<cc, npkt, seenPat, seenPmt, open>>
        [] e.e = "end" -> /\ Ok(e.pes = e.frames, e, "C09:frames-in-vs-PES-out") /\ UNCHANGED <<cc, npkt, seenPat, seenPmt, open>>
 AllConsumed == TLCGet("stats").diameter = Len(Trace) + 1
 ================================================================================
